@@ -83,8 +83,8 @@ pub fn gen(rng: &mut Prng) -> Cfg {
         // shape 2: sequential driver with exact gaps
         let steps = rng.range(2, 7);
         for _ in 0..steps {
-            let gap = *rng.pick(&[0, 1000, p / 2, p - 1000, p, p + 1000, 2 * p - 1000, 2 * p, 2 * p + 1000, 3 * p]);
-            let burst = rng.range(1, (l as u64 + 2).min(8)) as u32;
+            let gap = *rng.pick(&[0, 1000, p / 2, p - 1000, p, p + 1000, 2 * p - 1000, 2 * p, 2 * p + 1000, 3 * p, 5 * p + p / 2, 8 * p]);
+            let burst = if rng.chance(0.2) { rng.range(2 * l as u64 + 1, 3 * l as u64 + 3) as u32 } else { rng.range(1, (l as u64 + 2).min(8)) as u32 };
             let sub_us = if rng.chance(0.3) { *rng.pick(&[100u64, 400, 600, 900]) } else { 0 };
             seq.push(SeqStep { gap_us: gap, sub_us, burst });
         }
